@@ -532,6 +532,17 @@ def collision_case(name, acc: Acc):
         if len(hits) != 1:
             acc.violation(Violation("same_names", {**tags0, "obs": "type_member", "entity": nm}, case, (nm, kind, cont, ln), [g for g in got if g[0] == nm],
                                     what=f"{name}: member {nm} of {cont} listed {len(hits)} times"))
+    # workspace/symbol: every unit and every module member once per entity (two entities of one name: twice)
+    units = {v[0] for v in want.values() if v[2] is None}
+    listed = [v[0] for v in want.values() if v[2] is None or v[2] in units]
+    for q in sorted({n for n in listed} | {n[:2] for n in listed}):
+        res = s.result("workspace/symbol", {"query": q})
+        acc.count("workspace_queries")
+        gotn = sorted(y["name"].lower() for y in res) if isinstance(res, list) else res
+        wantn = sorted(n for n in listed if q.lower() in n.lower())
+        if gotn != wantn:
+            acc.violation(Violation("same_names", {**tags0, "obs": "workspace_symbol_multiset", "entity": q}, {**case, "query": q}, wantn, gotn,
+                                    what=f"{name}: workspace/symbol {q!r}: expected {wantn}, got {gotn}"))
     if len(acc.samples) < 1:
         acc.sample({"program": name, "text": text})
 
